@@ -97,14 +97,16 @@ theorem referenceLine_no_panic (E : Ext) {k : KW RefD} (hk : KInv k) (p h : Nat)
   next t ht =>
   have T := hk.tab h t ht
   split
-  · next dupID hl _ =>
+  · simp
+  split
+  · next dupID hl =>
     obtain ⟨eo, he⟩ := T.lookup_idx hl
     obtain ⟨i, er, _, _, her, _⟩ := T.lookup_item hl he
     simp only [he, her]
     split
     · simp
     · split <;> simp
-  · split <;> simp
+  · simp
 
 theorem readGroupLine_no_panic (E : Ext) (k : KW RgD) (h : Nat) (l : Bytes) : (readGroupLine E k h l).2 ≠ .panic := by
   unfold readGroupLine
